@@ -150,6 +150,9 @@ CONV_TEMPLATES = {
               A("permit", "udp", sport=("eq", ["p", "p2"]), dst=("h", "Y")), A("deny", "ip")],
     # address groups inside blocks made by group_by
     "grouped-ag": [R("= g1"), A("permit", src=X24), A("permit", src=("g", "G1")), R("= g2"), A("deny", src=("g", "G2")), A("deny", "ip")],
+    # groups on the destination side and on both sides with different members
+    "dst-ag": [A("permit", "tcp", dst=("g", "G1"), dport=("eq", ["q"])), A("permit", src=("g", "G2"), dst=("g", "G1")), R("note"),
+               A("deny", src=("h", "Y"), dst=("g", "G2")), A("permit", "ip")],
 }
 TEMPLATES = {
     # nested / duplicate / disjoint addresses
@@ -167,5 +170,5 @@ TEMPLATES = {
             A("deny", src=("w", "Y", "0.0.1.3")), A("permit", src=("w", "X", "0.0.1.3"))],
     # address groups with members
     "group": [A("permit", src=("g", "G1")), A("permit", src=("h", "Xh")), A("permit", src=("h", "Y")), A("deny", src=("g", "G2")),
-              A("permit", src=("g", "G2"))],
+              A("permit", src=("g", "G2")), A("permit", src=("g", "G2"), dst=("g", "G1")), A("permit", dst=("g", "G2"))],
 }
